@@ -4,11 +4,13 @@
 (* connection handler for C10.                                             *)
 EXTENDS ServerSM, TLC
 
-CONSTANT D
+CONSTANTS D,
+          Alphabet     \* the request symbols histories are made of (a subset of Symbols)
 VARIABLE hist
 mcvars == <<st, cfg, idx, hist>>
 
-Symbols == {"cfg1", "cfg2", "up1", "up2", "search", "reconnL", "reconnE", "foreign", "unknown"}
+Symbols == {"cfg1", "cfg2", "up1", "up2", "search", "reconnL", "reconnE", "foreign", "unknown", "cfgbad", "upbad"}
+ASSUME Alphabet \subseteq Symbols
 
 Step(s) ==
     CASE s = "cfg1"    -> \E o \in Outcomes : Config(1, o)
@@ -20,10 +22,12 @@ Step(s) ==
       [] s = "reconnE" -> Close
       [] s = "foreign" -> \E o \in Outcomes : Foreign(o)
       [] s = "unknown" -> \E o \in Outcomes : Unknown(o)
+      [] s = "cfgbad"  -> \E o \in Outcomes : Malformed(o)
+      [] s = "upbad"   -> \E o \in Outcomes : Malformed(o)
 
 MCInit == SMInit /\ hist = <<>>
 MCNext == /\ Len(hist) < D
-          /\ \E s \in Symbols : Step(s) /\ hist' = Append(hist, s)
+          /\ \E s \in Alphabet : Step(s) /\ hist' = Append(hist, s)
 MCSpec == MCInit /\ [][MCNext]_mcvars
 
 Emit == Len(hist) = D => PrintT(<<"H", hist>>)
